@@ -3,7 +3,7 @@
 From Coq Require Import List Bool ZArith NArith QArith Arith Permutation.
 From Coq Require Qcanon.
 From DV Require Import Common.Res Common.Str Generated.T_group Group.Model Group.Spec
-  Group.ProofsSkip Group.ProofsIsolation Group.Examples.
+  Group.ProofsSkip Group.ProofsIsolation Group.ProofsKeys Group.Examples.
 From DV Require Stack.Model Stack.ProofsC11.
 Import ListNotations.
 
@@ -52,6 +52,23 @@ Theorem parse_and_stack_isolation_real (p : Stack.Model.file -> bool) group_by a
     Permutation sts sts'.
 Proof.
   intros init Hat H Hh Hr. eapply parse_and_stack_isolation; try eassumption; [exact real_add_transactional | reflexivity].
+Qed.
+
+Theorem parse_and_stack_isolation_keys_real (p : Stack.Model.file -> bool) group_by atol time_order vector_order
+        (l : list (rd Stack.Model.file)) gs w gs2 w2 :
+  let init := Stack.Model.init time_order vector_order in
+  0 <= atol ->
+  parse_and_group group_by default_close_keys atol true l = Ok (gs, w) ->
+  parse_and_group group_by default_close_keys atol true (drop_files p l) = Ok (gs2, w2) ->
+  NoDup (map fst (imgs l)) ->
+  close_equiv group_by default_close_keys atol (map snd (imgs l)) ->
+  (forall g, In g gs -> refused_along p real_add init (snd g)) ->
+  exists sts sts' w',
+    parse_and_stack _ real_add real_n_files group_by atol true init l = Ok (sts, (length l - length (drop_files p l) + w')%nat) /\
+    parse_and_stack _ real_add real_n_files group_by atol true init (drop_files p l) = Ok (sts', w') /\
+    same_stacks_up_to_keys group_by default_close_keys atol sts sts'.
+Proof.
+  intros init Hat H H2 Hnd Heq Hr. eapply parse_and_stack_isolation_keys; try eassumption; [exact real_add_transactional | reflexivity].
 Qed.
 
 (* ------------------------------------------------------------------ concrete Stack files *)
